@@ -20,8 +20,9 @@ META = {
     "level": "exploration",
     "rule": (
         "Undirected graphs on <=9 nodes (<=12 thorough) given by neighbour functions: families uniform (random pairs incl. "
-        "self loops), blocks (cycles/cliques/single edges glued at cut vertices, several components, isolated nodes), dense "
-        "(pair bitmask) and forest+chords; every edge is listed from both sides, from one side only, or mixed; optional "
+        "self loops), blocks (cycles/cliques/paths/single edges glued at cut vertices, several components, isolated nodes), "
+        "dense (complete minus a few pairs), shells (clique core + nodes hung onto 0-3 earlier nodes: nested cores) and "
+        "forest+chords; every edge is listed from both sides, from one side only, or mixed; optional "
         "duplicate listings and self loops; neighbour lists, node order and index->label assignment are shuffled; labels all "
         "ints, all strs or all tuples; neighbour function returns list/tuple/generator. Oracle on the symmetrised simple "
         "loop-free graph: cut vertices and bridges by deletion + BFS component count, core numbers by literal repeated "
@@ -75,7 +76,11 @@ def _blocks(draw, nmax):
 
 
 @st.composite
-def und_graphs(draw, tier="quick"):
+def und_graphs(draw, tier="quick", salt=0):
+    # The runner seeds worker k of every sub-check identically; `salt` throw-away draws shift the random
+    # stream so that the three undirected sub-checks do not all see the very same graphs.
+    for _ in range(salt):
+        draw(st.integers(0, 255))
     nmax = 12 if tier == "thorough" else 9
     family = draw(st.sampled_from(["uniform", "blocks", "blocks", "dense", "shells", "forest+"]))
     if family == "uniform":
@@ -91,7 +96,7 @@ def und_graphs(draw, tier="quick"):
         pairs = [(i, j) for i in range(n) for j in range(i + 1, n)]
         gone = set(draw(st.lists(st.sampled_from(pairs), max_size=2 * n)))
         edges = [p for p in pairs if p not in gone]
-    elif family == "shells":  # a clique core, then nodes hung onto 1-3 earlier nodes: nested cores, bucket moves
+    elif family == "shells":  # a clique core, then nodes hung onto 0-3 earlier nodes: nested cores, bucket moves
         c = draw(st.integers(2, 5))
         n = draw(st.integers(c, nmax))
         edges = [(i, j) for i in range(c) for j in range(i + 1, c)]
@@ -458,8 +463,8 @@ def run_pagerank(desc, ctx):
 
 
 SUBS = [
-    Sub("articulation_bridges", run_articulation, strategy=lambda tier: und_graphs(tier), quick=1200, thorough=8000, workers_quick=4),
-    Sub("kcore", run_kcore, strategy=lambda tier: und_graphs(tier), quick=1000, thorough=8000, workers_quick=4),
-    Sub("pagerank", run_pagerank, strategy=lambda tier: digraphs(tier), quick=1000, thorough=6000, workers_quick=4),
-    Sub("louvain", run_louvain, strategy=lambda tier: und_graphs(tier), quick=1000, thorough=8000, workers_quick=4),
+    Sub("articulation_bridges", run_articulation, strategy=lambda tier: und_graphs(tier, 0), quick=1200, thorough=6000, workers_quick=4),
+    Sub("kcore", run_kcore, strategy=lambda tier: und_graphs(tier, 1), quick=1000, thorough=6000, workers_quick=4),
+    Sub("pagerank", run_pagerank, strategy=lambda tier: digraphs(tier), quick=1000, thorough=5000, workers_quick=4),
+    Sub("louvain", run_louvain, strategy=lambda tier: und_graphs(tier, 2), quick=1000, thorough=6000, workers_quick=4),
 ]
